@@ -44,7 +44,7 @@ def main():
         syms = []
         for name, (v, typ) in sorted(getattr(ex, "param_syms", {}).items()):
             syms.append((name, typ, v))
-        res = solve.discharge_all(ex, obs, ex.workdir, timeout_s=timeout, jobs=tgt.jobs, both=both)
+        res = solve.discharge_all(ex, obs, ex.workdir, timeout_s=timeout, jobs=tgt.jobs, both=both, order=tgt.order)
         ol = []
         cache = {}
         for o in obs:
